@@ -445,5 +445,5 @@ Definition schema_unrecognised : list string := [].
 
 (* regenerated non-vacuity example: a valid document reaching the deepest language position *)
 Definition example_file : nat := 2.  (* builders[].add_factory.factory.options[].parameters[].argument.type.enum.values[].type *)
-Definition example_doc : doc := DMap [("builders", DSeq [DMap [("add_factory", DMap [("factory", DMap [("options", DSeq [DMap [("parameters", DSeq [DMap [("argument", DMap [("type", DMap [("enum", DMap [("values", DSeq [DMap [("type", DMap [])]])])])])]])]])]); ("by_object", DScalar (SStr "a.b"))])]]); ("package", DScalar (SStr "a.b"))].
+Definition example_doc : doc := DMap [("builders", DSeq [DMap [("add_factory", DMap [("factory", DMap [("options", DSeq [DMap [("parameters", DSeq [DMap [("argument", DMap [("type", DMap [("enum", DMap [("values", DSeq [DMap [("type", DMap [("kind", DScalar (SStr "a.b"))]); ("name", DScalar (SStr "a.b"))]])]); ("kind", DScalar (SStr "a.b"))]); ("name", DScalar (SStr "a.b"))])]]); ("name", DScalar (SStr "a.b"))]]); ("name", DScalar (SStr "a.b"))]); ("by_object", DScalar (SStr "a.b"))])]]); ("package", DScalar (SStr "a.b")); ("language", DScalar (SStr "a.b"))].
 Definition example_path : path := [0; 0; 0; 0; 0; 0; 0; 0; 0; 0; 0; 0; 0; 0].
